@@ -61,6 +61,7 @@ type Exec struct {
 	specDepth    int
 	lockAccesses int
 	lockViolations []string
+	ownerViolations []string
 	escaped      map[string]bool
 }
 
